@@ -327,6 +327,45 @@ def _(v):
 @show.register(int)
 def _(v):  # noqa: F811 - same file, same qualified name, different function (the module global `_` is this one)
     return v + 1
+
+
+def _keep(f):
+    @functools.wraps(f)
+    def wrapper(*a, **kw):
+        return f(*a, **kw)
+
+    return wrapper
+
+
+class SlotDeco:
+    # a class-based decorator that keeps the decorated function in a SLOT named __wrapped__
+    __slots__ = ("__wrapped__", "calls")
+
+    def __init__(self, f):
+        self.__wrapped__ = f
+        self.calls = 0
+
+    def __call__(self, *a, **kw):
+        self.calls += 1
+        return self.__wrapped__(*a, **kw)
+
+
+@SlotDeco
+def slotted(v):
+    return (v,)
+
+
+class Stacked:
+    # functools.wraps stacked on top of @staticmethod / @classmethod: the wrapper's __wrapped__ is the staticmethod object,
+    # whose own __wrapped__ is a member of the builtin type
+    @_keep
+    @staticmethod
+    def smake(v):
+        return [v]
+
+    @SlotDeco
+    def meth(v):
+        return {"v": v}
 '''
 
 MUST_LOG_NESTED = ["make_fact.<locals>.fact"]
@@ -337,4 +376,5 @@ NESTING_CALLS = [
     "M.mutate_and_return([1])", "M.fill_dict({'k1': 0})", "list(M.gen_mutating([]))",
     "M.AbcShape.make(1)", "M.AbcSquare().area(2)", "M.AbcSquare.build(3)", "M.Colour.parse('x')", "M.Colour.RED.shade(1)",
     "M.ret_none_expr({'k': 1})", "M.ret_none_attr(M.Prop(None))", "list(M.gen_ret_none_expr({}))", "M.call_back(1)", "M.CALLBACKS['k']('s')", "list(M.gen_container_then_element(1))", "M.make_fact()(3)", "M.show(1)", "M.show('a')", "M.show(2.5)", "M.show(2)",
+    "M.slotted(1)", "M.slotted('a')", "M.Stacked.smake(1)", "M.Stacked.meth(2)",
 ]
